@@ -25,6 +25,7 @@ type c16Params struct {
 	IntervalMs int    `json:"interval_ms"`
 	Parallel   int    `json:"parallel"` // >1: that many requests are issued concurrently at every slot
 	Delay      bool   `json:"delay_bounded"`
+	ParkMs     int    `json:"parked_request_ms"` // >0: one request is outstanding for this long from the start of the window (its answer is held back like a Publish response)
 	During     bool   `json:"during_renewal"` // the requests are issued while an explicit renewal is in flight (its answer takes 200 ms)
 }
 
@@ -57,7 +58,24 @@ func c16Body(p c16Params) func() {
 				}()
 			}
 		}
+		if p.ParkMs > 0 {
+			srv.respond = func(s *echoServer, ctx context.Context, msg *uasc.MessageBody) {
+				if rr, ok := msg.Request().(*ua.ReadRequest); !ok || len(rr.NodesToRead) != 1 || rr.NodesToRead[0].NodeID.IntID() != 9999 {
+					s.answer(ctx, msg)
+					return
+				}
+				go func() {
+					time.Sleep(time.Duration(p.ParkMs) * time.Millisecond)
+					if err := s.answer(ctx, msg); err != nil {
+						obs.errs = append(obs.errs, "server response: "+err.Error())
+					}
+				}()
+			}
+		}
 		timeout := 10 * time.Second
+		if d := time.Duration(p.ParkMs)*time.Millisecond + 5*time.Second; d > timeout {
+			timeout = d
+		}
 		if p.ServerPush && life > timeout {
 			timeout = life // late answers take a quarter lifetime
 		}
@@ -89,6 +107,21 @@ func c16Body(p c16Params) func() {
 			}()
 			gap = 50 * time.Millisecond
 		}
+		var parked sync.WaitGroup
+		if p.ParkMs > 0 {
+			parked.Add(1)
+			obs.sent++
+			go func() {
+				defer parked.Done()
+				rq := readReq(0)
+				rq.NodesToRead[0].NodeID = ua.NewNumericNodeID(0, 9999)
+				if err := sc.SendRequest(bg, rq, nil, func(ua.Response) error { return nil }); err != nil {
+					obs.errs = append(obs.errs, fmt.Sprintf("parked request: %v", err))
+				} else {
+					obs.answered++
+				}
+			}()
+		}
 		for k := 0; k < p.Requests; k++ {
 			time.Sleep(gap)
 			n := p.Parallel
@@ -119,6 +152,7 @@ func c16Body(p c16Params) func() {
 			}
 			wg.Wait()
 		}
+		parked.Wait()
 		vrt.EndWindow()
 		obs.done = true
 	}
@@ -128,6 +162,9 @@ func c16Check(p c16Params) func(x *vrt.Exec) (string, string, string) {
 	tag := fmt.Sprintf("c16/lifetime=%dms/push=%v", p.LifetimeMs, p.ServerPush)
 	if p.During {
 		tag += "/requests-during-renewal"
+	}
+	if p.ParkMs > 0 {
+		tag += "/request-outstanding-across-renewal"
 	}
 	life := int64(p.LifetimeMs) * int64(time.Millisecond)
 	return func(x *vrt.Exec) (string, string, string) {
@@ -232,7 +269,7 @@ func c16Scenarios(thorough bool) []driver.Scenario {
 	var out []driver.Scenario
 	add := func(p c16Params, bound int) {
 		out = append(out, driver.Scenario{
-			Name:   fmt.Sprintf("c16/lifetime_ms=%d/requests=%d/push=%v/start=%d/every=%d/parallel=%d/during=%v", p.LifetimeMs, p.Requests, p.ServerPush, p.StartMs, p.IntervalMs, p.Parallel, p.During),
+			Name:   fmt.Sprintf("c16/lifetime_ms=%d/requests=%d/push=%v/start=%d/every=%d/parallel=%d/during=%v/parked=%d", p.LifetimeMs, p.Requests, p.ServerPush, p.StartMs, p.IntervalMs, p.Parallel, p.During, p.ParkMs),
 			Sequential: bound < 0,
 			Params: p, Cfg: vrt.Config{Horizon: int64(100 * time.Hour), SelectDeviations: true, MaxSteps: 12000, DelayBounded: p.Delay},
 			Body: c16Body(p), Check: c16Check(p), Bound: max(bound, 0), MaxExec: 60000,
@@ -244,6 +281,10 @@ func c16Scenarios(thorough bool) []driver.Scenario {
 		add(c16Params{LifetimeMs: l, Requests: 9}, -1)
 		add(c16Params{LifetimeMs: l, Requests: 9, ServerPush: true}, -1)
 	}
+	// a request whose answer is held back for 1.25 lifetimes (a parked Publish) is outstanding across the renewal
+	for _, l := range []uint32{2000, 1000, 10000} {
+		add(c16Params{LifetimeMs: l, Requests: 9, ParkMs: int(l) * 5 / 4}, -1)
+	}
 	// schedules: two requests placed around the first renewal (lifetime 2 s: renewal due at 1.5 s)
 	bound := 1
 	if thorough {
@@ -251,6 +292,7 @@ func c16Scenarios(thorough bool) []driver.Scenario {
 	}
 	add(c16Params{LifetimeMs: 2000, Requests: 2, StartMs: 1450, IntervalMs: 50}, bound)
 	add(c16Params{LifetimeMs: 2000, Requests: 2, StartMs: 1250, IntervalMs: 250, ServerPush: true}, bound)
+	add(c16Params{LifetimeMs: 2000, Requests: 2, StartMs: 1450, IntervalMs: 50, ParkMs: 2500}, bound)
 	// several requests queued at the renewal gate at the same time (requests at 1.5 s, when the renewal is due)
 	add(c16Params{LifetimeMs: 2000, Requests: 1, StartMs: 1500, IntervalMs: 100, Parallel: 3, Delay: true}, bound)
 	// ... and while a renewal is in flight (its answer is 200 ms away): all of them wait at the gate and must all be let through
